@@ -711,6 +711,8 @@ func engineAny(cfg config, o *out) {
 				codecRT := dErr == nil && dPan == nil && proto.Equal(direct, src)
 				if !codecRT {
 					o.count("codec_roundtrip_not_equal(C01)")
+					// a codec defect (C01's business) is also a failure of "unpack(pack m) equals m" for this m
+					o.withKey("roundtrip-codec/"+tn).prop("C16", false, fmt.Sprintf("pack/unpack of %s (%s) cannot return the original: the generated codec itself does not round-trip this value (decode(encode m) != m: %v %v); value %s", tn, av.class, dErr, dPan, av.v))
 				}
 				// ... and the reference decoder's (dynamicpb refuses invalid UTF-8 in proto3 strings, which the
 				// generated code neither writes nor reads with validation: DESIGN 9, a codec matter)
